@@ -78,8 +78,19 @@ def _prune(keep):
     except FileNotFoundError:
         return
     ds.sort(key=lambda d: os.path.getmtime(d), reverse=True)
+    now = time.time()
     for d in ds[keep:]:
-        shutil.rmtree(d, ignore_errors=True)
+        # a directory touched within the last hours may belong to a check that runs right now on another tree
+        # (several checks with different VERIF_REPO values side by side)
+        if now - os.path.getmtime(d) > 3 * 3600:
+            shutil.rmtree(d, ignore_errors=True)
+    for f in os.listdir(BUILD_ROOT):
+        fp = os.path.join(BUILD_ROOT, f)
+        try:
+            if f.startswith("lock.") and now - os.path.getmtime(fp) > 24 * 3600:
+                os.unlink(fp)
+        except OSError:
+            pass
 
 
 def build_lib(variant):
